@@ -2191,6 +2191,19 @@ class Opti:
 
     # -- values
     def _assign(self, key, value, table, names, what):
+        if isinstance(key, LVec):
+            # a symbolic number of symbols at once: recorded as "for all j: symbol key[j] gets value[j]"
+            if not isinstance(value, LVec):
+                value = _coerce(value)
+                if value.numel() != 1:
+                    raise Undecided("Opti.set_%s of a symbolic number of symbols with a concrete matrix" % what)
+                v0 = value.e[0]
+                value = LVec(key.n, lambda j, v0=v0: v0, key.row)
+            if not hasattr(self, "_sym_assign"):
+                self._sym_assign = []
+            self._sym_assign.append((what, key, value))
+            self._log.append(("set_" + what, key, value))
+            return
         key = _coerce(key)
         value = _coerce(value)
         if isinstance(value, MX) and value.has_symbols():
